@@ -89,12 +89,23 @@ CrossOut(S, X) ==
         \/ \E k \in Live(S) \ X : t \in InsOf(S, k)}
 NpuIns(o) == {o.ins[p] : p \in (DRIVER_INPUTS + 1)..Len(o.ins)} \ {""}
 
+\* A source operator whose lowering consists of several NPU operations can be SPLIT over two ethos-u operators (PRELU with a
+\* run-time alpha: the part that only needs the first operand runs before the CPU operator that produces alpha, the rest
+\* after it).  The tensors between the two parts do not exist in the source model.  The property does not forbid that, so
+\* the boundary is compared on source tensors only, and a new tensor may only flow from one ethos-u operator to another.
+SrcTensors(S) == UNION {InsOf(S, i) \cup OutsOf(S, i) : i \in OpIdx(S)} \cup Names(S.ins) \cup Names(S.outs)
 BoundaryAt(S, O, A, j) ==
     IF IsNpuOp(O.ops[j])
-    THEN /\ Rng(A[j]) # {}
+    THEN LET new_in == NpuIns(O.ops[j]) \ SrcTensors(S)
+             new_out == OutsOf(O, j) \ SrcTensors(S) IN
+         /\ (Rng(A[j]) # {} \/ (new_out # {} /\ OutsOf(O, j) = new_out))
          /\ Rng(A[j]) \subseteq OpIdx(S)
-         /\ NpuIns(O.ops[j]) = CrossIn(S, Rng(A[j]))
-         /\ OutsOf(O, j) = CrossOut(S, Rng(A[j]))
+         /\ NpuIns(O.ops[j]) \ new_in = CrossIn(S, Rng(A[j]))
+         /\ OutsOf(O, j) \ new_out = CrossOut(S, Rng(A[j]))
+         /\ \A t \in new_in : (\E q \in OpIdx(O) : q # j /\ IsNpuOp(O.ops[q]) /\ t \in OutsOf(O, q))
+         /\ \A t \in new_out : (t \notin Names(O.outs))
+         /\ \A t \in new_out : (\A q \in OpIdx(O) : t \in InsOf(O, q) => IsNpuOp(O.ops[q]))
+         /\ \A t \in new_out : (\E u \in OpIdx(O) : u # j /\ IsNpuOp(O.ops[u]) /\ t \in InsOf(O, u))    \* and is used
     ELSE Rng(A[j]) = {}
 CustomOpBoundary(S, O, A) ==
     /\ Len(A) = Len(O.ops)
